@@ -12,10 +12,13 @@ EXPLANATION = (
     "Marker::update and returns the looked-up entity; on every other path exactly one entity is created, allocate is given the marker's id and the "
     "new marker is inserted for the created entity, which is returned. R3 (per position): every generated deserialize_entity of arity n branches on "
     "component i of the data and on its Some edge calls insert(member i, the entity, convert_from(component i)), on its None edge remove(member i, "
-    "the entity) - same member, same entity, every path."
+    "the entity) - same member, same entity, every path. R4 (allocator impls): allocate overwrites mapping[id] = entity on every path; on the "
+    "explicit-id path the counter ends above the id (it is stored id + 1 or a max with it, or the edge taken implies counter > id) and never moves "
+    "backwards (a store derived from the id is guarded by an edge that implies counter <= id, or is max(counter, ..) / counter + c) - a small "
+    "interval argument over the branch conditions; shapes it cannot relate are undetermined, not violations."
 )
-NOT_DECIDED = ("uniqueness of marker ids over histories and the allocator's counter arithmetic (`id >= index => index = id + 1` - a compare-and-assign rule "
-               "was rejected as a frozen fragment); interleavings with entity deletion and allocator maintenance")
+NOT_DECIDED = ("uniqueness of marker ids as a theorem over histories (R4 decides the two counter invariants it rests on: past an explicit id, never "
+               "backwards); overflow of the counter; interleavings with entity deletion and allocator maintenance")
 TRUSTED = ["rustc nightly MIR", "sa/ analyses"]
 LEVEL_TEXT = ("Clause only: the structure that makes loading a merge instead of a duplication (existing marker kept, entity created only when lookup or "
               "marker fetch failed, per-position insert/remove) is decided on all paths. Id uniqueness across histories is NOT decided.")
